@@ -36,6 +36,10 @@ pub struct Cfg {
 }
 
 impl Cfg {
+    /// The password after OpaqueString processing, as an independent implementation would use it.
+    pub fn pw(&self) -> String {
+        crate::wire::opaque_known(&self.password)
+    }
     pub fn is_reliable(&self) -> bool {
         matches!(self.transport, Transport::Reliable { .. })
     }
